@@ -9,7 +9,7 @@
     concatenation in part-number order is the source (part numbers 1..n
     ascending, no empty part, every part but the last exactly the effective
     chunk size), for every size, chunk size > 0, threshold, start offset and,
-    for non-seekable streams, EVERY short-read script.  Whatever a client does
+    for streams (seekable or not), EVERY short-read script.  Whatever a client does
     to a body before its last attempt (sign reads, partial sends, rewinds),
     the last complete send delivers the body's bytes.  The part tasks may run
     in ANY order: complete receives [(ETag_k, k)] for k = 1..n in ascending
@@ -35,10 +35,11 @@ Theorem filename_parts_tile : forall f c, 0 < c ->
 Proof. exact filename_parts_tile_pf. Qed.
 Print Assumptions filename_parts_tile.
 
-(** Seekable manager, stream at position [p], full reads (empty short-read
-    script): the parts are the stream from [p] to EOF. *)
-Theorem seekable_parts_tile : forall data p c, 0 < c -> 0 <= p ->
-  let parts := plan_part_bytes (fst (sk_parts data p c [])) in
+(** Seekable manager, stream at position [p]: the parts are the stream from
+    [p] to EOF -- for EVERY short-read script [scr] (each part is read in a
+    loop until it is full or the stream ends). *)
+Theorem seekable_parts_tile : forall data p c scr, 0 < c -> 0 <= p ->
+  let parts := plan_part_bytes (fst (sk_parts data p c scr)) in
   concat (map snd parts) = skipn (Z.to_nat p) data /\
   map fst parts = zseq 1 (length parts) /\
   Forall nonempty (map snd parts) /\
@@ -46,13 +47,14 @@ Theorem seekable_parts_tile : forall data p c, 0 < c -> 0 <= p ->
 Proof. exact seekable_parts_tile_pf. Qed.
 Print Assumptions seekable_parts_tile.
 
-(** The full-read assumption is necessary: a seekable stream with short reads
-    loses bytes (the part count is fixed from the measured size). *)
-Theorem seekable_short_reads_refuted :
+(** ... true only since the repair: with one raw read per part (the part count
+    being fixed from the measured size) a short read lost the stream's tail. *)
+Theorem seekable_short_reads_unrepaired_refuted :
   exists data p c scr, 0 < c /\ 0 <= p <= Z.of_nat (length data) /\
-    concat (map snd (plan_part_bytes (fst (sk_parts data p c scr)))) <> skipn (Z.to_nat p) data.
-Proof. exact seekable_short_reads_refuted_pf. Qed.
-Print Assumptions seekable_short_reads_refuted.
+    concat (map snd (plan_part_bytes (fst (sk_parts_unrepaired data p c scr))))
+      <> skipn (Z.to_nat p) data.
+Proof. exact seekable_short_reads_unrepaired_refuted_pf. Qed.
+Print Assumptions seekable_short_reads_unrepaired_refuted.
 
 (** Non-seekable manager: threshold pre-read into _initial_data, then _read
     until an empty result -- for EVERY short-read script [scr]. *)
@@ -182,7 +184,7 @@ Print Assumptions any_schedule_is_a_permutation.
 
 (** ** End results *)
 
-(** Upload, any source kind (seekable: inside its data, full reads), any
+(** Upload, any source kind (seekable: positioned inside its data), any
     thresholds/chunk sizes/adjuster limits, any request script per body (any
     history, positive read sizes), any order of the part tasks: whenever the
     run completes the service accepted it ([ok]), the object IS the source;
@@ -252,25 +254,26 @@ Print Assumptions C01_legacy_upload_exact.
 
 (** ** Non-vacuity *)
 
-(** A seekable stream positioned at 2 (7 bytes to EOF), threshold 3, chunk 2
+(** A seekable stream positioned at 2 (7 bytes to EOF) with short reads 1,1,2,
+    threshold 3, chunk 2
     (limits 2..9, 4 parts max): four parts.  Every body first sees a signer
     read, a partial send and a rewind; the part tasks run in the order
     4, 2, 1, 3.  The run completes, is accepted, stores the 7 bytes, and the
     Parts list is 1..4 with the ETags in completion order 3, 2, 4, 1. *)
 Example C01_nonvacuous_upload :
-  let src := SrcSeekable [9; 9; 1; 2; 3; 4; 5; 6; 7] 2 [] in
+  let src := SrcSeekable [9; 9; 1; 2; 3; 4; 5; 6; 7] 2 [1; 1; 2] in
   let hist := [Disable; Read (Some 1); Seek 0 0; Enable; Read (Some 1); Seek 0 0; Disable; Tell] in
   let sc := mkSendScript hist [1; 5; 1] in
   src_ok src /\ scripts_ok [sc; sc; sc; sc] /\
   exists pl s' parts,
-    upload_plan_src 2 9 4 3 2 src = Some (pl, 2, [2; 2; 2; 2]) /\
+    upload_plan_src 2 9 4 3 2 src = Some (pl, 2, [2; 1; 2; 2; 2; 1]) /\
     plan_len pl = 4%nat /\
     run_upload 2 true s3_empty 7 pl [sc; sc; sc; sc] [3; 1; 0; 2]%nat = Some (s', true, parts) /\
     s3_object s' 7 = Some [1; 2; 3; 4; 5; 6; 7] /\
     map pm_num parts = [1; 2; 3; 4] /\ map pm_etag parts = [3; 2; 4; 1] /\
     length (s_completes s') = 1%nat.
 Proof.
-  cbv zeta. split; [cbn; split; [lia|reflexivity]|]. split.
+  cbv zeta. split; [cbn; lia|]. split.
   { repeat constructor. }
   eexists _, _, _. vm_compute. repeat split; reflexivity.
 Qed.
